@@ -508,7 +508,7 @@ def run(ctx, replay=None):
     TO = 600 if quick else 3000
     exh = ['core_ann', 'core_app', 'crea_ref', 'crea_app', 'deep_ann'] if quick else \
         ['core_ref', 'core_ann', 'core_app', 'crea_ref', 'crea_ann', 'crea_app', 'deep_ann', 'deep_ref']
-    sims = [(n, (50, 250) if quick else (700, 300)) for n in (('sim_ref_d', 'sim_ann_d', 'sim_app_t', 'sim_ann_t') if quick else
+    sims = [(n, (150, 250) if quick else (700, 300)) for n in (('sim_ref_d', 'sim_ann_d', 'sim_app_t', 'sim_ann_t') if quick else
                                                               ('sim_ref_d', 'sim_ann_d', 'sim_app_d', 'sim_ref_t', 'sim_ann_t', 'sim_app_t'))]
     results = {}
     with ThreadPoolExecutor(5 if quick else 4) as ex:
